@@ -199,13 +199,16 @@ def writes : List (Act C) → List (Rec C)
   | .wr r :: l => r :: writes l
   | _ :: l => writes l
 
-/-- file system: content of every path and the open stream file -/
+/-- file system: content of every path, the open stream file, and how often each path was truncated by an
+    overwrite-mode open (so that "truncated and rewritten with the same content" remains observable) -/
 structure FS (C : Type) where
   files : Path → List (Rec C)
   cur : Option Path
+  trunc : Path → Nat
 
 def fsStep (fs : FS C) : Act C → FS C
-  | .opn p a => { files := fun q => if q = p then (if a then fs.files p else []) else fs.files q, cur := some p }
+  | .opn p a => { files := fun q => if q = p then (if a then fs.files p else []) else fs.files q, cur := some p,
+                  trunc := fun q => if q = p then (if a then fs.trunc p else fs.trunc p + 1) else fs.trunc q }
   | .wr r =>
     match fs.cur with
     | some p => { fs with files := fun q => if q = p then fs.files p ++ [r] else fs.files q }
